@@ -106,7 +106,8 @@ def run(name, props):
     r = sh(["git", "-C", wt, "apply", os.path.join(d, "patch.diff")])
     if r.returncode != 0:
         print(name, "patch does not apply"); return
-    results = meta.get("checks", {})
+    cross = len(EXTRA) > 0
+    results = meta.get("cross_checks" if cross else "checks", {})
     for p in props:
         env = dict(os.environ, VERIF_REPO=wt, VERIF_TARGET=os.path.join(SCRATCH, "verif-target"), VERIF_OUT_TAG=TAG, VERIF_SIM_DIR=SIM_SNAPSHOT)
         t0 = time.time()
@@ -119,8 +120,12 @@ def run(name, props):
         print("%-44s %s: %s %s" % (name, p, {0: "missed", 1: "DETECTED", 2: "HARNESS ERROR"}.get(r.returncode, r.returncode), results[p]["violations"]))
         if r.returncode == 2:
             print(r.stdout[-600:])
-    meta["checks"] = results
-    meta["detected_by"] = sorted(p for p, o in results.items() if o["exit"] == 1)
+    if cross:
+        meta["cross_checks"] = results
+        meta["also_detected_by_at_reduced_budget"] = sorted(p for p, o in results.items() if o["exit"] == 1 and p != meta.get("property"))
+    else:
+        meta["checks"] = results
+        meta["detected_by"] = sorted(p for p, o in results.items() if o["exit"] == 1)
     save_meta(name, meta)
     drop_tree()
 
@@ -161,7 +166,7 @@ def main():
         while i < len(args):
             if args[i] == "--all-props": all_props = True; i += 1
             elif args[i] == "--props": props_arg = args[i + 1].split(","); i += 2; all_props = props_arg
-            elif args[i] in ("--runs", "--tier", "--seed"): EXTRA += [args[i], args[i + 1]]; i += 2
+            elif args[i] in ("--runs", "--tier", "--seed", "--scale"): EXTRA += [args[i], args[i + 1]]; i += 2
             else: names.append(args[i]); i += 1
         snapshot_sim()
         for n in names:
